@@ -299,6 +299,27 @@ func runC15(c *Ctx) {
 			c15DecodeCompare(c, t, nil, "{"+string(b)+":1,"+string(a)+":2,"+string(a)+":3}", "dup")
 		}
 	}
+	// the fold table itself, and every ASCII byte as a one-character key against names that cover the
+	// alphabet (seeded change C15-a: 'Z' not folded)
+	tbl := json.VerifFoldTable()
+	for b := 0; b < 256; b++ {
+		c.Op(fmt.Sprintf("lower %d", b), fmt.Sprintf("%d", tbl[b]), true, "foldtable")
+	}
+	for _, letters := range []string{"abcdefghijklmnop", "qrstuvwxyz", "ABCDEFGHIJKLMNOP", "QRSTUVWXYZ_019"} {
+		var fields []reflect.StructField
+		var own []string
+		for i, r := range letters {
+			own = append(own, string(r))
+			fields = append(fields, reflect.StructField{Name: fmt.Sprintf("F%d", i), Type: intT, Tag: reflect.StructTag(fmt.Sprintf(`json:"%s"`, string(r)))})
+		}
+		t := reflect.StructOf(fields)
+		for b := 0x20; b < 0x80; b++ {
+			for _, sp := range c15Spellings(string(rune(b)), c) {
+				c15DecodeCompare(c, t, nil, "{"+sp+":7}", "alphabet")
+				c15MatcherOps(c, t, own, sp+":7}")
+			}
+		}
+	}
 	// declared shapes with embedding
 	for di, mk := range c15Declared {
 		v := mk()
